@@ -1030,6 +1030,15 @@ def _gen_session(rng, model, params, index):
     ids = IdGen()
     ids.n = 1000 * (index + 1)
     wl = labels_of(model)
+    if params.get("no_temp_refs"):
+        # (C11: the suffix of a temporary label an earlier session left
+        # behind depends on the order in which blocks were visited, i.e. on
+        # addresses, i.e. on the layout finding F03; a patch that spells such
+        # a name out would turn that into an abort in one schedule)
+        import re as _re
+
+        for k in ("code", "data", "entries", "all"):
+            wl[k] = [n for n in wl[k] if not _re.search(r"_\d+$", n) or not _re.match(r"^(\.L|L|\$L)s\d", n)]
     ops = []
     # a zero-sized block kept by an earlier deletion shares its position with
     # the block that follows it; edits at that block are left alone (which
